@@ -238,7 +238,13 @@ void parse_options(program_options &options, int argc, char **argv) {
 			}
 
 			case 'd':
-				options.delimiters = parse_delimiters(optarg);
+				try {
+					options.delimiters = parse_delimiters(optarg);
+				} catch (const util::NotUTF8Exception &) {
+					// Used to escape from main: abort instead of a usage error.
+					std::cerr << argv[0] << ": the argument of -d is not valid UTF-8\n";
+					std::exit(usage(argv));
+				}
 				continue;
 
 			case 's':
